@@ -263,7 +263,14 @@ def tensor(
             if ndmin < 0:
                 ndmin = 0  # numpy does this
             if ndmin > arr_like.ndim:
-                arr_like = arr_like[(*(None for _ in range(ndmin - arr_like.ndim)),)]
+                # `constant` is passed on explicitly: with graph-tracking off an
+                # op would otherwise infer it from the dtype alone
+                arr_like = Tensor._op(
+                    GetItem,
+                    arr_like,
+                    op_args=((*(None for _ in range(ndmin - arr_like.ndim)),),),
+                    constant=arr_like.constant,
+                )
             # return tensor as-as
             return arr_like
 
